@@ -1,6 +1,7 @@
 // C17: content at the format's limits survives; beyond them saving refuses (or the file still loads to the same content).
 #include "common.h"
 #include "snap.h"
+#include "hist.h"
 #include <memory>
 #include <sstream>
 #include <sys/stat.h>
@@ -15,7 +16,7 @@ static const Lim LIMS[] = {
     {"param_description_length", 255}, {"param_name_length", 127}, {"param_name_length_locked", 127}, {"group_name_length", 127},
     {"extent_int", 255}, {"extent_float", 255}, {"extent_string_count", 255}, {"extent_string_width", 255},
     {"points", 255}, {"channels", 255}, {"frames", 32767}, {"int_value_high", 32767}, {"int_value_low", -32768},
-    {"parameter_blocks", 255}, {"record_next_offset", 65535},
+    {"parameter_blocks", 255}, {"record_next_offset", 65535}, {"string_table_entries_255_wide", 255}, {"parameter_record_bytes", 255 * 512 - 1},
 };
 static const int NLIMS = sizeof LIMS / sizeof LIMS[0];
 
@@ -57,6 +58,19 @@ static void applyLimit(ezc3d::c3d& c, int lim, long v, const std::string& scratc
                 if (T < 0) T = 0;
             }
             addFillers(c, T); if (c.parameters().group("POINT").parameter("USED").valuesAsInt()[0] == 0) applyLimit(c, 8, 3, scratch); break; }   // plus a little data, so a wrong block count is observable
+        case 16: { // the records of the parameter section take exactly v bytes; the end marker needs one more, so 255 blocks hold 130 559 (130 560 = a section that ends exactly on the block boundary)
+            if (c.parameters().group("POINT").parameter("USED").valuesAsInt()[0] == 0) applyLimit(c, 8, 3, scratch);   // a little data first (its labels are parameters too); a missing end marker is then observable
+            { Param sd("SEED"); sd.set(1); c.parameter("LIM", sd); }
+            int kk = 0;
+            for (;;) { long now = (long)paramSectionBytes(take(c)); long r = v - now; if (r <= 60000) break;
+                Param p("FL" + std::to_string(kk++)); std::vector<size_t> dm; dm.push_back(250); dm.push_back(30); p.set(std::vector<float>(7500, 2.5f), dm); c.parameter("LIM", p); }
+            { long now = (long)paramSectionBytes(take(c)); long rem = v - now - (7 + 4 + 2); if (rem < 0) throw std::runtime_error("limit case 16: object already larger than the target");
+              long n = rem / 255, dl = rem - n * 255; Param p("TUNE", std::string((size_t)dl, 't')); std::vector<std::string> d; for (long i = 0; i < n; ++i) d.push_back(std::string(255, 'u')); if (n == 0) { d.push_back(""); std::vector<size_t> dm; dm.push_back(0); p.set(std::vector<std::string>(), dm); /* dims [0,0] */ } else p.set(d); c.parameter("LIM", p);
+              long got = (long)paramSectionBytes(take(c)); if (got != v) throw std::runtime_error("limit case 16: built " + std::to_string(got) + " bytes instead of " + std::to_string(v)); }
+            break; }
+        case 15: { // v strings of 255 characters in ONE parameter: up to 65 025 characters, more elements than 16 bits (signed) count
+            Param p("TABLE"); std::vector<std::string> d; for (long i = 0; i < v; ++i) d.push_back(std::string(255, (char)('a' + i % 26))); p.set(d); c.parameter("LIM", p);
+            Param after("AFTER_TABLE"); after.set(7); c.parameter("LIM", after); break; }
         case 14: { // one record whose next-offset word must hold v: 7 + data + description length, data = 65280 bytes of ints [255,128]
             long desc = v - 7 - 65280; if (desc < 0) desc = 0;
             Param p("BIGREC", std::string((size_t)desc, 'r')); std::vector<int> d(255 * 128, 3); for (size_t i = 0; i < d.size(); ++i) d[i] = (int)(i % 30000); std::vector<size_t> dims; dims.push_back(255); dims.push_back(128); p.set(d, dims); c.parameter("LIM", p);
@@ -72,7 +86,7 @@ static void finishData(ezc3d::c3d& c) {
     std::vector<std::string> labels = c.parameters().group("POINT").parameter("LABELS").valuesAsString();
     for (int f = 0; f < 2; ++f) {
         ezc3d::DataNS::Frame fr; ezc3d::DataNS::Points3dNS::Points pts;
-        for (size_t i = 0; i < np; ++i) { ezc3d::DataNS::Points3dNS::Point p; p.name(i < labels.size() ? labels[i] : "?"); p.x((float)i); p.y((float)f); p.z(1.f); p.residual(0.5f); pts.point(p); }
+        for (size_t i = 0; i < np; ++i) { ezc3d::DataNS::Points3dNS::Point p; p.name(i < labels.size() ? labels[i] : "?"); p.x((float)i + 0.1f); /* first data byte non-zero */ p.y((float)f); p.z(1.f); p.residual(0.5f); pts.point(p); }
         ezc3d::DataNS::AnalogsNS::Analogs an;
         for (size_t s = 0; s < ns; ++s) { ezc3d::DataNS::AnalogsNS::SubFrame sf; for (size_t i = 0; i < nc; ++i) { ezc3d::DataNS::AnalogsNS::Channel ch; ch.data((float)i + f); sf.channel(ch); } an.subframe(sf); }
         fr.add(pts, an); c.frame(fr);
@@ -84,7 +98,7 @@ static std::vector<long> levelsOf(int lim) {
     if (lim == 12) { v.push_back(L + 1); v.push_back(L); v.push_back(L - 1); v.push_back(-40000); v.push_back(-2147483647L - 1); return v; }
     v.push_back(L - 1); v.push_back(L); v.push_back(L + 1);
     switch (lim) { case 0: v.push_back(300); break; case 1: case 2: case 3: v.push_back(200); v.push_back(255); v.push_back(256); break; case 4: case 5: case 6: case 7: v.push_back(300); v.push_back(512); break;
-        case 8: case 9: v.push_back(300); break; case 10: v.push_back(40000); break; case 11: v.push_back(40000); v.push_back(65535); v.push_back(2147483647L); break; case 13: v.push_back(258); break; case 14: v.push_back(65540); break; }
+        case 8: case 9: v.push_back(300); break; case 10: v.push_back(40000); break; case 11: v.push_back(40000); v.push_back(65535); v.push_back(2147483647L); break; case 13: v.push_back(258); break; case 14: v.push_back(65540); break; case 15: v.push_back(128); v.push_back(129); break; }
     return v;
 }
 
